@@ -460,6 +460,7 @@ fn main() {
         None => (0..cases).collect(),
     };
     let started = std::time::Instant::now();
+    let deadline = started + std::time::Duration::from_secs(args.u64("deadline", 3600));
     let next = AtomicU64::new(0);
     let total = Mutex::new(Report::new("orphmon"));
     std::thread::scope(|s| {
@@ -470,6 +471,10 @@ fn main() {
                     let i = next.fetch_add(1, Ordering::Relaxed) as usize;
                     if i >= ids.len() {
                         break;
+                    }
+                    if std::time::Instant::now() > deadline {
+                        rep.count("cases_skipped_deadline", 1);
+                        continue;
                     }
                     let id = ids[i];
                     let r = std::panic::catch_unwind(std::panic::AssertUnwindSafe(|| {
